@@ -492,7 +492,11 @@ fn process_tags(
             } else {
                 None
             };
+            #[cfg(feature = "verif")]
+            crate::verif::elem_enter(context);
             let gen_result = t.generate_events(context);
+            #[cfg(feature = "verif")]
+            crate::verif::elem_exit(context, gen_result.is_ok());
             if !context.in_specs {
                 // if we *are* in a specs block, we don't care if there were errors;
                 // a specs entry may have insufficient context until reuse time.
